@@ -222,6 +222,23 @@ Section HMP.
     - intros e. apply in_tbl_set_some; auto.
   Qed.
 
+
+  (* overwrite the entry stored under a present probe key *)
+  Lemma replace_present m q e0 e : Inv m -> q < hcap m -> get (hm_slots m) q = Some e0 -> ek e = ek e0 ->
+    let m' := {| hm_slots := set (hm_slots m) q (Some e); hm_count := hm_count m |} in
+    Inv m' /\ hcap m' = hcap m /\ (forall e', Ent m' e' <-> (e' = e \/ (Ent m e' /\ ek e' <> ek e0))).
+  Proof.
+    intros (Hn & Hcnt & Hlt & HC & HD) Hq Hg Hke. unfold hcap in *.
+    assert (Hlen : length (set (hm_slots m) q (Some e)) = length (hm_slots m)) by apply set_length.
+    cbn zeta. unfold Inv, Ent, hcap. cbn [hm_slots hm_count]. rewrite Hlen.
+    split; [|split; [reflexivity|]].
+    - split; [exact Hn|]. split; [erewrite occ_set_replace; [exact Hcnt | exact Hq | exact Hg]|].
+      split; [exact Hlt|]. split.
+      + eapply replace_chain; eauto.
+      + eapply replace_distinct; eauto.
+    - intros e'. eapply in_tbl_replace; eauto.
+  Qed.
+
   Theorem insert_h_spec m h k v ok : Inv m ->
     match lookup m (h, k) with
     | Some e0 =>
